@@ -91,7 +91,36 @@ Definition T_GEONAN := 64%Z. Definition T_HIST := 128%Z.    Definition T_VEC := 
 Definition T_VAR := 512%Z.   Definition T_COPYPOKE := 1024%Z. Definition T_SORTOP := 2048%Z.
 Definition T_GEOBRACKET := 4096%Z.
 Definition T_ALLZEROW := 8192%Z.   (* weighted, every weight zero: Mean and GeoMean must be NaN *)
-Definition T_WNONPOS := 16384%Z.    (* weighted, a value <= 0 carries weight: GeoMean must be NaN *)
+Definition T_WNONPOS := 16384%Z.
+Definition T_BIG := 32768%Z.        (* values beyond 1e300: sums / squared deviations overflow float64 although the mean does not *)
+Definition T_LONG := 65536%Z.       (* at least 4096 values *)    (* weighted, a value <= 0 carries weight: GeoMean must be NaN *)
+
+(* ---------- float64 overflow of sums (values near 1e308) ----------
+   maxf = MaxFloat64.  vec.Sum / Sample.Sum add from the left: as soon as an EXACT prefix sum exceeds maxf in
+   magnitude the float64 accumulator is +-Inf of that sign and stays so (the values are finite).  Welford's M2 is a
+   sum of non-negative terms: it exceeds maxf at some step iff its final exact value does, and Variance / StdDev are
+   then +Inf.  (Prefix sums within rounding of maxf are not generated.)  The mean has no such branch: it must be
+   finite and within tol_mean. *)
+Definition maxf : Q := inject_Z (2 ^ 1024 - 2 ^ 971).
+Fixpoint first_overflow (terms : list Q) (acc : Q) : option bool :=
+  match terms with
+  | [] => None
+  | x :: t => let a := Qred (acc + x) in
+              if Qltb maxf (Qabs a) then Some (Qltb a 0) else first_overflow t a
+  end.
+(* observed sum of the terms, model value v *)
+Definition sum_close (terms : list Q) (tol v : Q) (obs : xreal) : bool :=
+  match first_overflow terms 0 with
+  | Some neg => xeq (XInf neg) obs
+  | None => xwithin tol (XFin v) obs
+  end.
+(* exact M2 = variance * (n - 1) of an unweighted sample *)
+Definition m2_overflows (xs : list Q) (v : fres) : bool :=
+  match v with FVal q => Qltb maxf (q * Qofnat (length xs - 1)) | _ => false end.
+Definition var_close (xs : list Q) (tv : Q) (v : fres) (st : Z) (obs : xreal) : bool :=
+  if m2_overflows xs v then (st =? 0)%Z && xeq (XInf false) obs else f_close tv v st obs.
+Definition std_close (xs : list Q) (tv : Q) (v : fres) (st : Z) (obs : xreal) : bool :=
+  if m2_overflows xs v then (st =? 0)%Z && xeq (XInf false) obs else f_close_sqrt tv v st obs.
 
 (* ---------- kind 0 ---------- *)
 Record stat_obs := mkSO {
@@ -122,15 +151,15 @@ Definition check_stats (sorted hasw : bool) (xs ws : list Q) (o : stat_obs) : li
   let terms := if hasw then map (fun p => fst p * snd p) (combine xs ws) else xs in
   let res := first_false
     [ f_close (tol_mean xs) (mean xs) 0 (so_mean o);
-      f_close tv v 0 (so_var o);
-      f_close_sqrt (tv + 8 * ulp53 * var_val v) v 0 (so_std o);
+      var_close xs tv v 0 (so_var o);
+      std_close xs (tv + 8 * ulp53 * var_val v) v 0 (so_std o);
       negb (gc =? 2)%Z;
       b_eq (bounds xs) (so_bmin o) (so_bmax o);
       f_close (if hasw then tol_wmean xs else tol_mean xs) (sample_mean s) (sm_st o) (sm_mean o);
-      f_close tv sv (sv_st o) (sv_var o);
-      f_close_sqrt (tv + 8 * ulp53 * var_val v) sv (sd_st o) (sd_std o);
+      var_close xs tv sv (sv_st o) (sv_var o);
+      std_close xs (tv + 8 * ulp53 * var_val v) sv (sd_st o) (sd_std o);
       negb (sgc =? 2)%Z;
-      xwithin (tol_sum terms) (XFin (sample_sum s)) (s_sum o);
+      sum_close terms (tol_sum terms) (sample_sum s) (s_sum o);
       xwithin (if hasw then tol_sum ws else 0) (XFin (sample_weight s)) (s_weight o);
       b_eq (sample_bounds s) (s_bmin o) (s_bmax o);
       (s_unmod o =? 1)%Z ] in
@@ -144,7 +173,9 @@ Definition check_stats (sorted hasw : bool) (xs ws : list Q) (o : stat_obs) : li
              (Z.lor (if (gc =? 1)%Z || (sgc =? 1)%Z then T_GEOBRACKET else 0)
              (Z.lor (if allzero then T_ALLZEROW else 0)
              (Z.lor (if wnonpos then T_WNONPOS else 0)
-                    (if (2 <=? length xs)%nat then T_VAR else 0))))))))%Z in
+             (Z.lor (if Qltb (1000000000000 # 1) (Qmaxabs xs) then T_BIG else 0)
+             (Z.lor (if (4096 <=? length xs)%nat then T_LONG else 0)
+                    (if (2 <=? length xs)%nat then T_VAR else 0))))))))))%Z in
   match xs, res with
   | [], None => verdict V_OK 0 (-1) []
   | _, None => verdict V_OK tag (-1) []
@@ -216,10 +247,10 @@ Definition query_ok (s : sample) (mst : Z) (m sm w b1 b2 : xreal) (vst : Z) (v :
   let sv := sample_variance s in
   first_false
     [ f_close (if hasw then tol_wmean xs else tol_mean xs) (sample_mean s) mst m;
-      xwithin (tol_sum terms) (XFin (sample_sum s)) sm;
+      sum_close terms (tol_sum terms) (sample_sum s) sm;
       xwithin (if hasw then tol_sum (ws_of s) else 0) (XFin (sample_weight s)) w;
       b_eq (sample_bounds s) b1 b2;
-      f_close (tol_var xs (var_val sv)) sv vst v ].
+      var_close xs (tol_var xs (var_val sv)) sv vst v ].
 
 Fixpoint run_hist (st : list sample) (ops : list (hop * hobs)) (idx tag : Z) : Z * Z * Z * list Z :=
   match ops with
@@ -318,10 +349,17 @@ Definition check_vec (v : vcase) : bool * list Z :=
   match v with
   | VLin lo hi num res => (lists_close (tol_lin lo hi) (linspace lo hi num) res, [0%Z])
   | VLog lo hi num base res => (pows_ok base (logspace_exponents lo hi num) res && geo_prog res, [1%Z])
-  | VSum xs r => (xwithin (tol_sum xs) (XFin (vsum xs)) r, [2%Z])
+  | VSum xs r => (sum_close xs (tol_sum xs) (vsum xs) r, [2%Z])
   | VMap fid xs r1 r2 u =>
       (list_Qeq (vmap (vec_fun fid) xs) r1 && list_Qeq (vectorize (vec_fun fid) xs) r2 && (u =? 1)%Z, [3%Z])
   | VConcat xss r u => (list_Qeq (vconcat xss) r && (u =? 1)%Z, [4%Z])
+  end.
+
+(* size of the vec call (tag T_LONG from 4096 on) *)
+Definition vec_len (v : vcase) : nat :=
+  match v with
+  | VLin _ _ num _ => num | VLog _ _ num _ _ => num | VSum xs _ => length xs
+  | VMap _ xs _ _ _ => length xs | VConcat _ r _ => length r
   end.
 
 (* ---------- the line ---------- *)
@@ -362,7 +400,8 @@ Definition check_case (c : c09case) : list Z :=
       end
   | KVec v =>
       let '(ok, d) := check_vec v in
-      if ok then verdict V_OK T_VEC (-1) [] else verdict V_MISMATCH T_VEC 0 d
+      let tag := Z.lor T_VEC (if (4096 <=? vec_len v)%nat then T_LONG else 0%Z) in
+      if ok then verdict V_OK tag (-1) [] else verdict V_MISMATCH tag 0 d
   end.
 
 Definition check_C09 (line : list Z) : list Z :=
